@@ -151,7 +151,7 @@ def run(tier):
 
         # ---- (2) pool of concrete points classified by the number of steps each needs alone ----------------------------------
         pool = {}
-        npool = 400 if quick else 4000
+        npool = 400 if quick else 40000
         cand = [(rnd_w(), rnd_d()) for _ in range(npool)]
         # the transition regions: first-guess switch (kd ~ 1) and derivative switch (kd ~ 5)
         for _ in range(npool // 2):
@@ -187,7 +187,7 @@ def run(tier):
             if any(x not in pool for x in lv):
                 skipped += 1
                 continue
-            for rep in range(2 if quick else 8):
+            for rep in range(2 if quick else 40):
                 pts = [rng.choice(pool[x]) for x in lv]
                 order = list(range(len(pts)))
                 rng.shuffle(order)
@@ -202,7 +202,7 @@ def run(tier):
         chk.set("emitted_cases_without_concrete_points", skipped)
         chk.set("highest_level_observed", int(maxlvl))
         # ---- (4) code -> spec: large arrays mixing regimes, scalars, infinite depth ------------------------------------------
-        for rep in range(20 if quick else 300):
+        for rep in range(20 if quick else 2000):
             n = rng.choice([1, 2, 7, 100, 2000])
             form = rng.choice(["scalar", "array"]) if n == 1 else "array"
             w = np.array([rnd_w() for _ in range(n)])
@@ -246,7 +246,7 @@ def run(tier):
         # ---- (4b) group velocity on calls that stay inside ONE regime (a shortcut taken when every element of a call looks deep, or
         # shallow, must still be right): the regime classes of Dispersion.tla's level mixes, one class per call, scalars included
         bands = [(1e-5, 0.05), (0.05, 0.5), (0.5, math.pi), (math.pi, 5.0), (5.0, 20.0), (20.0, 1e5)]
-        for rep in range(12 if quick else 200):
+        for rep in range(12 if quick else 3000):
             lo_, hi_ = bands[rep % len(bands)]
             n = rng.choice([1, 1, 3, 50])
             dd = np.array([rnd_d(0.0) for _ in range(n)])
@@ -263,7 +263,7 @@ def run(tier):
                         "ok": (np.abs(cg - ref) <= 2e-3 * ref).astype(int).tolist()})
             distinct.add(("cg-regime", rep % len(bands), n))
         # ---- (5) order: increasing in w, non-increasing in d -------------------------------------------------------------------
-        for rep in range(20 if quick else 200):
+        for rep in range(20 if quick else 2000):
             d = rnd_d(0.15)
             n = rng.choice([5, 60, 400])
             w = 3e-3 * (50.0 / 3e-3) ** (np.arange(n) / (n - 1.0))       # ratio >= 1.025: true k differs by >= 1.2 %
@@ -285,7 +285,7 @@ def run(tier):
             distinct.add(("mono", rep))
         # ---- (6) the spectrum accessors: depth x frequency index map, missing depth = deep --------------------------------------
         classes = ["d1", "d2", "inf"]
-        for rep in range(6 if quick else 60):
+        for rep in range(6 if quick else 400):
             dval = {"d1": rng.uniform(0.5, 3.0), "d2": rng.uniform(15.0, 60.0), "inf": np.inf, "nan": np.nan}
             nf = rng.choice([8, 20])
             if rep % 2:
